@@ -22,41 +22,51 @@
 (***************************************************************************)
 EXTENDS Naturals, Sequences, TLC
 
-CONSTANTS Routes, Targets, Source      \* Source = character set of the stream that is read
+CONSTANTS Routes, Targets, Sources     \* Sources: what (0008,0005) of the stream that is read says;
+                                       \* "none" = the stream has no Specific Character Set element
+(* routes that can ADD a missing (0008,0005); update_value(_at) only change an *)
+(* existing element                                                            *)
+AddRoutes == {"put", "apply_set", "apply_setstr", "convert_to_utf8"}
+(* the bytes of text under a declaration: without (0008,0005) the default      *)
+(* repertoire applies, for which the implementation leniently reads and writes *)
+(* ISO 8859-1 bytes, i.e. the same bytes as under ISO_IR 100                    *)
+EncOf(cs) == IF cs = "none" THEN "ISO_IR 100" ELSE cs
 
 Modes == {"explicit", "undefined"}
 Strategies == {"SetUndefined", "NoChange"}
 
-VARIABLES phase,      \* "read" -> "edited" -> "written" -> "reread"
+VARIABLES src,        \* declaration of the stream read
+          phase,      \* "read" -> "edited" -> "written" -> "reread"
           seqMode, itemMode,   \* how sequence / item lengths were encoded in the stream read
           scs,        \* character set named by (0008,0005) of the object
           lenValid,   \* the remembered lengths still describe what will be written
           route,
           seqOut, itemOut,     \* length form emitted by the writer: "undefined" | "remembered"
           result      \* "-" | "unchanged" | "broken"
-evars == <<phase, seqMode, itemMode, scs, lenValid, route, seqOut, itemOut, result>>
+evars == <<src, phase, seqMode, itemMode, scs, lenValid, route, seqOut, itemOut, result>>
 
-EInit == /\ phase = "read" /\ seqMode \in Modes /\ itemMode \in Modes
-         /\ scs = Source /\ lenValid = TRUE /\ route = "none"
+EInit == /\ src \in Sources /\ phase = "read" /\ seqMode \in Modes /\ itemMode \in Modes
+         /\ scs = src /\ lenValid = TRUE /\ route = "none"
          /\ seqOut = "-" /\ itemOut = "-" /\ result = "-"
 
 (* every route replaces the value of (0008,0005) and invalidates the lengths *)
 Change(r, t) == /\ phase = "read" /\ phase' = "edited"
                 /\ (r = "convert_to_utf8" => t = "ISO_IR 192")
+                /\ (src = "none" => r \in AddRoutes)
                 /\ scs' = t /\ lenValid' = FALSE /\ route' = r
-                /\ UNCHANGED <<seqMode, itemMode, seqOut, itemOut, result>>
+                /\ UNCHANGED <<src, seqMode, itemMode, seqOut, itemOut, result>>
 NoEdit == /\ phase = "read" /\ phase' = "edited"
-          /\ UNCHANGED <<seqMode, itemMode, scs, lenValid, route, seqOut, itemOut, result>>
+          /\ UNCHANGED <<src, seqMode, itemMode, scs, lenValid, route, seqOut, itemOut, result>>
 
 Emitted(mode, strategy) == IF mode = "explicit" /\ lenValid /\ strategy = "NoChange" THEN "remembered" ELSE "undefined"
 Write(s) == /\ phase = "edited" /\ phase' = "written"
             /\ seqOut' = Emitted(seqMode, s) /\ itemOut' = Emitted(itemMode, s)
-            /\ UNCHANGED <<seqMode, itemMode, scs, lenValid, route, result>>
+            /\ UNCHANGED <<src, seqMode, itemMode, scs, lenValid, route, result>>
 
 (* a remembered length is right only if the text is encoded as it was read *)
 Reread == /\ phase = "written" /\ phase' = "reread"
-          /\ result' = IF (seqOut = "remembered" \/ itemOut = "remembered") /\ scs # Source THEN "broken" ELSE "unchanged"
-          /\ UNCHANGED <<seqMode, itemMode, scs, lenValid, route, seqOut, itemOut>>
+          /\ result' = IF (seqOut = "remembered" \/ itemOut = "remembered") /\ EncOf(scs) # EncOf(src) THEN "broken" ELSE "unchanged"
+          /\ UNCHANGED <<src, seqMode, itemMode, scs, lenValid, route, seqOut, itemOut>>
 
 ENext == (\E r \in Routes, t \in Targets : Change(r, t)) \/ NoEdit \/ (\E s \in Strategies : Write(s)) \/ Reread
 ESpec == EInit /\ [][ENext]_evars
@@ -85,12 +95,12 @@ Latin1(cps) == cps
 CS == <<67, 83>>  PN == <<80, 78>>  LO == <<76, 79>>  SH == <<83, 72>>
 IsoIr100 == <<73, 83, 79, 95, 73, 82, 32, 49, 48, 48>>     \* "ISO_IR 100"
 
-(* (0008,0005)=ISO_IR 100, (0008,0070) LO before, (0040,0275) SQ of items   *)
+(* [(0008,0005)=ISO_IR 100 unless declared = "none"], (0008,0070) LO before, (0040,0275) SQ of items   *)
 (* each holding (0010,0010) PN, (0040,1001) SH after                        *)
-Stream(before, names, after, sm, im) ==
+Stream(declared, before, names, after, sm, im) ==
     LET item(n) == ItemBytes(ShortEl(16, 16, PN, Latin1(n)), im)
         RECURSIVE Items(_)
         Items(ns) == IF ns = <<>> THEN <<>> ELSE item(Head(ns)) \o Items(Tail(ns)) IN
-    ShortEl(8, 5, CS, IsoIr100) \o ShortEl(8, 112, LO, Latin1(before))
+    (IF declared = "none" THEN <<>> ELSE ShortEl(8, 5, CS, IsoIr100)) \o ShortEl(8, 112, LO, Latin1(before))
     \o SeqBytes(64, 629, Items(names), sm) \o ShortEl(64, 4097, SH, Latin1(after))
 =============================================================================
